@@ -118,7 +118,9 @@ CHECKS = {
              "factor form factor x attenuation x pi*BRDF of the RECEIVING wall at the nearest incoming sample "
              "(C03_refines, C03_transfer_factor); order K = order K-1 + non-negative term; non-negativity from "
              "non-negative data; diffuse tables make the histograms independent of the direction sampling, across "
-             "scenes with different numbers of directions. Correspondence on shoeboxes and closed triangle polyhedra; "
+             "scenes with different numbers of directions (C03_diffuse_sampling_independent_bounded: tables constant "
+             "on their in-range entries; the older C03_diffuse_sampling_independent asks it of all indices, which only "
+             "reflectance 0 meets: C03_diffuse_forces_zero; non-vacuity example in Instances/NonVacuity.v). Correspondence on shoeboxes and closed triangle polyhedra; "
              "the search compares /repo with a second, independently written Python solver.",
         note=TRUST + "'finite' is a float notion (correspondence only). The reference solver takes the baked form "
              "factors/visibility as scene data (C05/C07).",
@@ -202,7 +204,10 @@ CHECKS = {
         text="Proof (partial on one numeric clause): energy balance per order with the RECEIVING wall's reflectance, "
              "the (1+closure error) bound, exact zero for absorbing walls and truncation monotonicity are theorems about "
              "the L0 recursion and the executable pipeline model (proved equal on the window: C01_model_is_recursion), "
-             "for all scenes/orders/histogram lengths; closed under the global context. The model is run against "
+             "for all scenes/orders/histogram lengths; closed under the global context. The balance of the executable "
+             "model of a diffuse scene is C01_model_balance_bounded (diffuse hypothesis on the in-range table entries; "
+             "the older C01_model_balance asks it of all indices, which only reflectance 0 meets: "
+             "C01_model_balance_forces_zero; non-vacuity example in Instances/NonVacuity.v). The model is run against "
              "/repo on baked scenes and synthetic asymmetric kernel inputs each run; the property statement is also "
              "evaluated directly on the implementation (failing-input search).",
         note=TRUST + "Not carried by a theorem: the numeric value 2.5% of the form-factor closure error (quadrature "
